@@ -30,7 +30,7 @@ ASSUMPTIONS = [
 TRUSTED = ["modelled rather than verified: core/server/copy.go, the hook-less path of handleTCPRequest (server.go:271-343), client.go TCP()/tcpConn.Read "
            "(hand transcription in coq/model/C06_Relay.v); level (a) transcribes the three teardown lines of server.go:338-342 in the harness, "
            "level (b) runs the real ones"]
-PER_SHARD = 30
+PER_SHARD = 40
 EXTRA_TARGETS = ["corr/C06_Corr.vo"]
 FP_VETO = "veto-swallowed-other-direction-returned-first"
 
@@ -116,12 +116,37 @@ def fixed_cases():
     return cs
 
 
+def e2e_cases(rng, tier):
+    def mk(**kw):
+        c = {"k": "e2e", "fastopen": False, "logger": True, "dial_err": "", "up_n": 5000, "up_chunk": 700, "down_n": 70000,
+             "down_chunk": 9000, "veto_at": -1, "ua": rng.randrange(256), "ub": rng.randrange(256),
+             "da": rng.randrange(256), "db": rng.randrange(256)}
+        c.update(kw)
+        return c
+    cs = []
+    for fo in (False, True):
+        cs.append(mk(fastopen=fo, dial_err="connect: connection refused (verif %d)" % rng.randrange(10**6)))
+        for lg in (True, False):
+            cs.append(mk(fastopen=fo, logger=lg, up_n=rng.choice([0, 1, 5000, 40000]), down_n=rng.choice([1, 33000, 70000])))
+        cs.append(mk(fastopen=fo, veto_at=rng.choice([0, 1, 2, 3])))
+    if tier != "quick":
+        for _ in range(40):
+            cs.append(mk(fastopen=rng.random() < 0.5, logger=rng.random() < 0.7, up_n=rng.randrange(0, 100000),
+                         up_chunk=rng.choice([1, 100, 5000, 40000]), down_n=rng.randrange(0, 200000),
+                         down_chunk=rng.choice([1, 100, 5000, 40000]) if rng.random() < 0.9 else 1,
+                         veto_at=rng.choice([-1, -1, 0, 1, 4, 9])))
+        for c in cs:
+            if c["up_chunk"] == 1 or c["down_chunk"] == 1:
+                c["up_n"], c["down_n"] = min(c["up_n"], 3000), min(c["down_n"], 3000)
+    return cs
+
+
 def gen(rng, tier):
     scale = 1 if tier == "quick" else 25
-    cases = fixed_cases()
+    cases = fixed_cases() + e2e_cases(rng, tier)
     for _ in range(260 * scale):
         cases.append(gen_relay(rng, False))
-    for _ in range(20 * scale):
+    for _ in range(14 * scale):
         cases.append(gen_relay(rng, True))
     return cases
 
@@ -159,6 +184,8 @@ def obs_term(c, ev):
 
 
 def to_coq(c, o):
+    if c["k"] == "e2e":
+        return None       # level (b) is judged by the harness verdict only
     if o.get("panic") or "trace" not in o:
         return None
     if any(str(ev[-1]).startswith("other:") for ev in o["trace"] if ev[0] in ("R", "W", "F")):
@@ -169,6 +196,9 @@ def to_coq(c, o):
 
 
 def klass(c, o):
+    if c["k"] == "e2e":
+        kind = "dial-error" if c["dial_err"] else ("veto" if o.get("vetoed") else "data")
+        return "e2e:%s:fo=%d:logger=%d%s" % (kind, c["fastopen"], c["logger"], ":SKIPPED" if o.get("skip") else "")
     f = o.get("facts") or {}
     if o.get("panic"):
         return "panic"
@@ -185,6 +215,8 @@ def klass(c, o):
 
 
 def nontrivial(c, o):
+    if c["k"] == "e2e":
+        return not o.get("skip")
     f = o.get("facts") or {}
     both = f.get("fwd_U", 0) > 0 and f.get("fwd_D", 0) > 0
     rough = (f.get("fwd_U", 0) + f.get("fwd_D", 0) > 0) and (f.get("veto") or f.get("wfault_U") or f.get("wfault_D") or o.get("ret") != "nil")
@@ -204,6 +236,7 @@ def search(ctx, disagreeing):
     for s in range(3):
         rng = random.Random(ctx.seed * 1000 + s + 17)
         cases = gen(rng, "quick")
+        cases = [c for c in cases if c["k"] != "e2e"]
         ok, outs, _, log = common.run_go_cases(ctx, GO, cases, tag="search%d" % s)
         for c, o in zip(cases, outs):
             if o.get("ok") is False and fingerprint(c, o) is None:
@@ -215,7 +248,39 @@ def search(ctx, disagreeing):
 
 
 def run(ctx):
-    return common.run_case_check(ctx, sys.modules[__name__])
+    """common.run_case_check with the cases routed to two Go packages: relay histories to core/server (level a),
+    end-to-end cases to core/internal/integration_tests (level b); outputs merged back in case order."""
+    orig = common.run_go_cases
+
+    def both(ctx_, gospec, cases, tag="main", timeout=900, race=False):
+        if gospec is not GO:
+            return orig(ctx_, gospec, cases, tag=tag, timeout=timeout, race=race)
+        ia = [i for i, c in enumerate(cases) if c.get("k") != "e2e"]
+        ib = [i for i, c in enumerate(cases) if c.get("k") == "e2e"]
+        race = race or ctx_.tier == "thorough"
+        ok1, o1, params, log1 = orig(ctx_, GO, [cases[i] for i in ia], tag=tag, timeout=timeout, race=race)
+        ok2, o2, log2 = True, [], ""
+        if ib:
+            ok2, o2, _, log2 = orig(ctx_, GO_E2E, [cases[i] for i in ib], tag=tag + "_e2e", timeout=timeout, race=race)
+        outs = [None] * len(cases)
+        if len(o1) == len(ia) and len(o2) == len(ib):
+            for i, o in zip(ia, o1):
+                outs[i] = o
+            for i, o in zip(ib, o2):
+                outs[i] = o
+        else:
+            outs = []
+        skipped = sum(1 for o in o2 if o.get("skip"))
+        if skipped:
+            ctx_.say("level (b): %d of %d end-to-end cases skipped for infrastructure reasons: %s" % (
+                skipped, len(o2), next(o.get("skip") for o in o2 if o.get("skip"))))
+        return ok1 and ok2, outs, params, log1 + log2
+
+    common.run_go_cases = both
+    try:
+        return common.run_case_check(ctx, sys.modules[__name__])
+    finally:
+        common.run_go_cases = orig
 
 
 def replay(ctx, path):
